@@ -7,18 +7,20 @@ SPECS = [
     dict(name="c23_char_index_utf16_4", batch="q", tiers=("quick",), bound="every UTF-8 text of <= 4 bytes, every char-boundary offset", what="char_index_to_position == LSP (line, UTF-16 character)", timeout=1200),
     dict(name="c23_index_of_line_char_utf16_4", batch="q", tiers=("quick",), bound="every UTF-8 text of <= 4 bytes, every position on line >= 1", what="get_index_of_line_char(LSP position) == byte offset of that position", timeout=1200),
     dict(name="c23_index_of_line_char_first_line_total", batch="q", tiers=Q, bound="every UTF-8 text of <= 4 bytes, positions on line 0", what="no arithmetic underflow / panic, result within the text", timeout=1200),
+    dict(name="c23_token_pieces_utf16_3", batch="q2", tiers=Q, bound="every UTF-8 text of <= 3 bytes, every token span on character boundaries", what="absolutize_relative_token: one piece per line of the token, each with its byte start and its length in UTF-16 code units", timeout=2400),
+    dict(name="c23_token_pieces_utf16_4", batch="t4", tiers=T, bound="every UTF-8 text of <= 4 bytes, every token span on character boundaries", what="as c23_token_pieces_utf16_3", timeout=3600),
     dict(name="c23_delta_utf16_6", batch="t1", tiers=T, bound="every UTF-8 text of <= 6 bytes", what="as c23_delta_utf16_4", timeout=2400),
     dict(name="c23_char_index_utf16_6", batch="t2", tiers=T, bound="every UTF-8 text of <= 6 bytes", what="as c23_char_index_utf16_4", timeout=2400),
     dict(name="c23_index_of_line_char_utf16_6", batch="t3", tiers=T, bound="every UTF-8 text of <= 6 bytes", what="as c23_index_of_line_char_utf16_4", timeout=2400),
 ]
 FUNCTIONS = ["isograph_lsp::semantic_tokens::delta_line_delta_start", "isograph_lsp::format::char_index_to_position",
-             "isograph_lsp::hover::get_index_of_line_char (+ utf16_offset_to_byte_offset)"]
+             "isograph_lsp::hover::get_index_of_line_char (+ utf16_offset_to_byte_offset)", "isograph_lsp::semantic_tokens::absolutize_relative_token"]
 FILES = ["crates/isograph_lsp/src/semantic_tokens.rs", "crates/isograph_lsp/src/format.rs", "crates/isograph_lsp/src/hover.rs"]
 ASSUMPTIONS = [
     "bounded: texts of at most 4 (quick) / 6 (thorough) bytes; every mixture of 1-4 byte scalars and line breaks inside that bound",
     "oracle = LSP specification: line = '\\n' count before the offset, character = UTF-16 code units since the line start ('\\r' is not treated as a line break, like the code under test)",
     "get_index_of_line_char: exact value asserted for positions on line >= 1 only; for line 0 (where the code adds a historical +1) only totality is asserted",
-    "only the three conversion kernels: semantic-token assembly (token length is still a byte length), request handlers and the database are outside the claim",
+    "only the conversion kernels and the splitting of one token into line pieces (texts <= 3 (4) bytes there: str::split_inclusive is expensive for CBMC); request handlers, the database and the composition of pieces into the delta-encoded token stream are outside the claim",
     "whole isograph_lsp crate compiled by Kani with its real dependencies (no stand-in crates are reachable from these kernels)",
 ]
 
